@@ -434,10 +434,8 @@ Proof.
         apply andb_true_iff in Ec as [Ec1 Ec2]. injection H as <-.
         apply N.eqb_eq in Ec1. rewrite <- Ec1.
         rewrite (sane_ok_dec _ _ _ rest Ec2), Hel. reflexivity.
-      * destruct ((lenN es =? c) && sane_ok san (lenN es) body) eqn:Ec; [|discriminate].
-        apply andb_true_iff in Ec as [Ec1 Ec2]. injection H as <-.
-        apply N.eqb_eq in Ec1. rewrite <- Ec1.
-        rewrite (sane_ok_dec _ _ _ rest Ec2), Hel. reflexivity.
+      * destruct (lenN es =? c) eqn:Ec1; [|discriminate]. injection H as <-.
+        apply N.eqb_eq in Ec1. rewrite <- Ec1. rewrite Hel. reflexivity.
     + (* dict *)
       destruct bare; [|discriminate]. cbn [negb] in *.
       destruct (enc_elems _ es) as [body|] eqn:EE; [|discriminate].
@@ -503,7 +501,7 @@ Proof.
     destruct k; unfold sane_ok in *;
       repeat match goal with
              | H : (if ?c && ?d then _ else _) = Some _ |- _ => destruct c; cbn [andb] in *; [destruct d; [exact H|discriminate]|discriminate]
-             end.
+             end; try exact H.
   - destruct (negb bare); [discriminate|].
     destruct (enc_elems _ es) as [body|] eqn:EE; [|discriminate].
     assert (HF : Forall (fun e => forall b0, enc1 true s (f_ty ef) (f_bare ef) (eval_args ps [] (f_args ef)) e = Some b0 ->
